@@ -63,6 +63,8 @@ def run_entry(profile, features, entry, repo=None):
         records.extend(loop_entry(I, entry))
     elif entry == "stamp":
         records.extend(stamp_entry(I))
+    elif entry == "ppconst":
+        records.extend(ppconst_entry(I))
     elif entry == "ctor":
         records.extend(ctor_entry(I))
     elif entry == "access":
@@ -191,6 +193,26 @@ def stamp_entry(I):
     for (s1, k1, v1, m1) in _stage(I, [st], NID + "is_removed", lambda s: [idv, driver.arena_ref(False)], None):
         recs.append({"entry": "stamp", "table": "NodeId::is_removed(stale)", "exit": k1, "value": v1.b if k1 == "return" else None,
                      "cmp": [list(map(str, k)) for k, v in s1.cmp.items()], "msg": m1})
+    return recs
+
+
+def ppconst_entry(I):
+    """C14(4): the indent strings as tables over (is_last_item, is_first_line)."""
+    recs = []
+    IBS = "crate::debug_pretty_print::IndentedBlockState"
+    for last in (False, True):
+        for first in (False, True):
+            row = {"entry": "ppconst", "is_last_item": last, "is_first_line": first}
+            for fn in ("as_str", "as_str_leading", "as_str_trailing_spaces", "is_all_whitespace"):
+                st = State()
+                val = VStruct(IBS, (("is_last_item", VBool(last)), ("is_first_line", VBool(first))))
+                out = _stage(I, [st], IBS + "::" + fn, lambda s: [val], None)
+                if len(out) == 1 and out[0][1] == "return":
+                    v = out[0][2]
+                    row[fn] = v.s if isinstance(v, VStr) else (v.b if isinstance(v, VBool) else repr(v))
+                else:
+                    row[fn] = {"undecided": [o[3] for o in out]}
+            recs.append(row)
     return recs
 
 
